@@ -9,6 +9,7 @@
 import GM.Model.Ids
 import GM.Proof.Ids
 import GM.Props.C15E2E
+import GM.Props.ConvertE2EAll
 
 namespace GM.Props.C15
 open GM GM.Ids
@@ -99,5 +100,27 @@ theorem e2e_headings_always_closed : type_of% @GM.Props.C15E2E.headings_always_c
 theorem e2e_headings_always_once : type_of% @GM.Props.C15E2E.headings_always_once := @GM.Props.C15E2E.headings_always_once
 theorem e2e_block_phase_close_discipline : type_of% @GM.Props.C15E2E.block_phase_close_discipline := @GM.Props.C15E2E.block_phase_close_discipline
 theorem e2e_heading_ids_document_local : type_of% @GM.Props.C15E2E.heading_ids_document_local := @GM.Props.C15E2E.heading_ids_document_local
+
+/-- (re-export of `GM.Props.ConvertE2EAll.converth_total_of_block_phase`) **`converth_total_of_block_phase`** — everything BEHIND the block phase is total for the AutoHeadingID configuration: whenever
+    the block phase with the option returns a state, `convertH true` answers HTML, for every Unicode-class assignment and option
+    set (the inline phase on every block of the tree, every `Segment.Value` of the tree conversion, every node renderer — the
+    generated `id` attributes form a legal, clash-free attribute list, so `Spec.Inv` holds of the tree). -/
+theorem converth_total_of_block_phase : type_of% @GM.Props.ConvertE2EAll.converth_total_of_block_phase := @GM.Props.ConvertE2EAll.converth_total_of_block_phase
+
+/-- (re-export of `GM.Props.ConvertE2EAll.converth_total_or_value_panic`) **`converth_total_or_value_panic`** — for EVERY byte string, Unicode-class assignment and option set: `convertH true` answers
+    HTML, or its block phase ended in the ONE panic that is not excluded yet: `lastLine.Value(reader.Source())` inside
+    `generateAutoHeadingID` (atx_heading.go:203) — never fuel exhaustion, never a panic `convertCore`'s block phase has (it has
+    none: `block_phase_total`), never an error of the inline phase, the tree conversion or a node renderer. -/
+theorem converth_total_or_value_panic : type_of% @GM.Props.ConvertE2EAll.converth_total_or_value_panic := @GM.Props.ConvertE2EAll.converth_total_or_value_panic
+
+/-- (re-export of `GM.Props.ConvertE2EAll.c15_end_to_end_of_block_phase`) **`c15_end_to_end_of_block_phase`** — C15 END TO END with totality behind the block phase: whenever the block phase with the
+    option returns, `convertH true` answers HTML `html`, `html` is the rendering of the parsed tree, and for the Heading nodes
+    the renderer visits, in document order: the attribute lists are exactly `id = v`, pairwise DISTINCT; every `v` is NON-EMPTY
+    and consists of `a-z 0-9 -`; the start tag `<hN id="v">` is a contiguous part of `html`. -/
+theorem c15_end_to_end_of_block_phase : type_of% @GM.Props.ConvertE2EAll.c15_end_to_end_of_block_phase := @GM.Props.ConvertE2EAll.c15_end_to_end_of_block_phase
+
+/-- (re-export of `GM.Props.ConvertE2EAll.c15_end_to_end_or_value_panic`) **`c15_end_to_end_or_value_panic`**: for EVERY source either all of C15's conclusions hold of the HTML `convertH true` answers,
+    or the block phase hit the `Segment.Value` panic of `generateAutoHeadingID` -/
+theorem c15_end_to_end_or_value_panic : type_of% @GM.Props.ConvertE2EAll.c15_end_to_end_or_value_panic := @GM.Props.ConvertE2EAll.c15_end_to_end_or_value_panic
 
 end GM.Props.C15
